@@ -2,7 +2,7 @@
 compile time (partial: signature-table proof + region calculus soundness in Lean; rustc trusted and compared)."""
 from lib import *
 import lib as _lib
-from engines.life import run_life
+from engines.life import run_life, changed_methods
 
 MODULES = ["BumpProof.Props.C04"]
 
@@ -12,6 +12,18 @@ def regen_sigs(ctx):
     ctx.extra["translator"] = (out + err).strip().splitlines()
     return rc == 0
 
+SIGS = os.path.join(LEAN, "BumpProof", "Gen", "Sigs.lean")
+
+def reference_sigs_text():
+    """the table the theorems were last checked against: the committed Gen/Sigs.lean if this is a git checkout, else the file as
+    it is before this run regenerates it"""
+    try:
+        rc, out, err, dt = _lib.run(["git", "-C", VERIF, "show", "HEAD:lean/BumpProof/Gen/Sigs.lean"])
+        if rc == 0 and "def sigs" in out: return out
+    except Exception:
+        pass
+    return open(SIGS).read() if os.path.exists(SIGS) else ""
+
 def run(ctx):
     return check(ctx)
 
@@ -19,26 +31,37 @@ def check(ctx):
     ctx.extra["rule"] = ("one program per (allocation-producing method of the extracted signature table) x (context that yields a handle) x "
                          "(escape route of the property text), each with a minimally different control program, plus thread moves/shares for "
                          "Send+Sync / Send-only / neither base allocators and single-field settings conversions; every program is decided by "
-                         "rustc (batched; error codes attributed per program) and by the calculus' executable type checker; "
+                         "rustc (batched; error codes attributed per program) and by the calculus' executable type checker; plus the derived "
+                         "misuse corpus of every method that hands something out (must not compile iff the calculus' dynamic semantics faults); "
                          "distinct_nontrivial counts distinct programs rustc rejects")
+    ref_text = reference_sigs_text()
     translated = regen_sigs(ctx)
+    changed, other_changed = changed_methods(ref_text, open(SIGS).read() if os.path.exists(SIGS) else "")
+    if changed or other_changed:
+        ctx.notes.append("Gen/Sigs.lean differs from the reference table: " + (", ".join(sorted(f"{o}::{n}" for o, n in changed)[:30]) or "(no method row)") +
+                         ("; implementors / assertions / structs / auto-trait impls differ" if other_changed else ""))
     # when the extraction fails Gen/Sigs.lean keeps its last good content: the theorems then speak about THAT table (the
     # undischarged `translate:Sigs.lean` obligation is what breaks the proof), and the rustc correspondence still runs, with the
     # corpus generated from the same last good table — a changed signature/implementor shows up as a program that compiles
     proved = prove(ctx, MODULES) and translated
     ran = run_life(ctx)
-    if (not proved or ctx.disagreements or not ran) and not [f for f in ctx.oracle_failures if not f.get("known")] and ctx.quick():
-        # a proof obligation (e.g. `decide` on the regenerated table) or the correspondence broke: search the full product for a
-        # program that must not compile but does
-        ctx.notes.append("proof/correspondence broken: running the full corpus (thorough-tier generators) to find an escape that compiles")
-        ctx.tier = "thorough"
-        try:
-            keep = list(ctx.disagreements)
+    new_oracle = lambda: [f for f in ctx.oracle_failures if not f.get("known")]
+    if (not proved or ctx.disagreements or not ran) and not new_oracle() and ctx.quick():
+        # a proof obligation (e.g. `decide` on the regenerated table) or the correspondence broke: search for a program that must
+        # not compile but does.  First the derived misuse corpus of exactly the methods whose table row changed …
+        keep = list(ctx.disagreements)
+        if changed:
+            ctx.notes.append(f"proof/correspondence broken: running the full derived misuse corpus of the {len(changed)} method(s) whose signature changed")
             ctx.disagreements.clear()
-            run_life(ctx)
-            ctx.disagreements[:0] = keep
-        finally:
-            ctx.tier = "quick"
+            run_life(ctx, focus=changed, label="life-search(changed signatures)")
+            keep += ctx.disagreements
+        # … then the complete classic corpus (every producer x context x route)
+        if not new_oracle():
+            ctx.notes.append("running the complete classic corpus to find an escape that compiles")
+            ctx.disagreements.clear()
+            run_life(ctx, classic_full=True, label="life-search(full classic corpus)")
+            keep += ctx.disagreements
+        ctx.disagreements[:] = keep
     ctx.partial += [
         "TRUSTED: soundness of rustc's borrow checker, variance and auto-trait inference — the calculus' type checker is only COMPARED with rustc "
         "(same accept/reject verdict and compatible error class on every generated program)",
